@@ -27,9 +27,11 @@
        select-and-apply steps fit between two ingests (C20_compaction_runs_are_bounded_sequential).
        The run-level bound is SEQUENTIAL: with K >= 2 threads a compaction is selected on one
        version and applied to a later one; C01_concurrent_apply_is_valid (Lsm) shows it is still
-       admissible there, but that it still holds an input above its upper level at that time
-       (true by conflict exclusion) is not proved, so a livelock of several threads is not
-       excluded by a theorem.
+       admissible there, and C20_concurrent_apply_keeps_what_lowers_measure /
+       C20_ingest_keeps_what_lowers_measure show that each non-conflicting apply and each L0 push
+       in between leaves the entries it takes from above its upper level unchanged, so it still
+       lowers mu when applied; the induction over a whole concurrent run is not written out, so
+       the bound for several threads is per step, not per run.
    `sel_wfb (p_v s)` in theorem 1 is a hypothesis about the reached state, not an invariant of
    Proto.steps (s_apply takes arbitrary outputs); the check asserts it after every applied
    compaction of every real run, and C01_concurrent_invariant_reachable proves well-formedness
@@ -47,8 +49,9 @@
    Not proved here: fairness of the scheduler and of Mutex/Condvar (a runnable thread runs). *)
 From Coq Require Import NArith ZArith List Bool Arith.
 From Blue Require Import Gen.Const_Stall Lsm.Model Stall.Select Stall.Known Stall.Proto
-  Stall.ProofsBounds Stall.ProofsAdm Stall.ProofsNext Stall.ProofsTotal Stall.ProofsStall Stall.ProofsRelief Stall.ProofsProto Stall.ProofsMeasure Stall.ProofsProgress.
-From Blue Require Lsm.History Stall.EndToEnd.
+  Stall.ProofsBounds Stall.ProofsAdm Stall.ProofsNext Stall.ProofsTotal Stall.ProofsStall Stall.ProofsRelief Stall.ProofsProto Stall.ProofsMeasure Stall.ProofsProgress Stall.ProofsConcMeasure.
+From Blue Require Lsm.History Stall.EndToEnd Lsm.ModelConcurrent Lsm.ConcStable.
+From Blue Require Import Lsm.LoadProofs.
 Import ListNotations.
 Open Scope N_scope.
 
@@ -218,6 +221,40 @@ Proof.
   intros v c outs V Ho Hn. unfold valid_compactionb in V.
   do 5 (apply andb_prop in V; destruct V as [V _]).
   destruct (vc_shape_facts v c V) as (Hlu & Hlen & _ & Hbb). now apply compaction_lowers_mu.
+Qed.
+
+(* 14''. Several compaction threads: a compaction is applied to a later version than the one it
+         was selected on.  What makes mu drop - the entries it takes from above its upper level -
+         is unchanged when ANOTHER admissible, non-conflicting compaction is applied in between
+         (hypotheses of C01_conflict_exclusion_keeps_admissible, which also keeps it admissible),
+         and when a file is pushed onto level 0.  So 14' applies to it on the later version.  The
+         induction over a whole concurrent run (C01's machine provides these hypotheses at every
+         step, C01_concurrent_invariant_reachable) is not written out here. *)
+Theorem C20_concurrent_apply_keeps_what_lowers_measure : forall v c d outs,
+  wf_version v -> wf_version (apply_compaction v d outs) ->
+  valid_compactionb v c = true -> valid_compactionb v d = true ->
+  Lsm.ModelConcurrent.conflictb c d = false ->
+  (forall o, In o outs -> is_input c o = false /\
+     key_leb (cfirst d) (first_key o) = true /\ key_leb (last_key o) (clast d) = true) ->
+  ec (concat (map (filter (is_input c)) (mids (apply_compaction v d outs) c))) =
+  ec (concat (map (filter (is_input c)) (mids v c))).
+Proof.
+  intros v c d outs Hw Hw' Hvc Hvd Hnc Ho.
+  destruct (Lsm.ConcStable.valid_parts v c Hvc) as (Hlt & _).
+  rewrite !mids_entries_mid_files by exact Hlt.
+  now rewrite (apply_other_mid_inputs v c d outs Hw Hw' Hvc Hvd Hnc Ho).
+Qed.
+
+Theorem C20_ingest_keeps_what_lowers_measure : forall v c f,
+  v <> [] -> l0_order (hd [] v ++ [f]) = f :: l0_order (hd [] v) ->
+  valid_compactionb v c = true -> is_input c f = false ->
+  ec (concat (map (filter (is_input c)) (mids (ingest v f) c))) =
+  ec (concat (map (filter (is_input c)) (mids v c))).
+Proof.
+  intros v c f Hne Hl Hv Hf.
+  destruct (Lsm.ConcStable.valid_parts v c Hv) as (Hlt & _).
+  rewrite !mids_entries_mid_files by exact Hlt. unfold ingest, level0.
+  now rewrite (push_l0_mid_inputs v c f Hne Hl Hv Hf).
 Qed.
 
 (* 15. Hence a run of n select-and-apply steps from v, one compaction at a time, exists only for
